@@ -45,7 +45,7 @@ theorem validateSwComponent_covers :
 
 /-! ### struct tags: CBOR keys, types, omitempty, JSON names -/
 theorem fieldsP1Claims : Facts.fieldsP1Claims = [
-  { name := "Profile", goType := "*string", cborKey := (-75000), keyAsInt := true, cborOmitEmpty := true, cborSkip := false, jsonName := "psa-profile", jsonOmitEmpty := false, jsonSkip := false },
+  { name := "Profile", goType := "*string", cborKey := (-75000), keyAsInt := true, cborOmitEmpty := true, cborSkip := false, jsonName := "psa-profile", jsonOmitEmpty := true, jsonSkip := false },
   { name := "ClientID", goType := "*int32", cborKey := (-75001), keyAsInt := true, cborOmitEmpty := false, cborSkip := false, jsonName := "psa-client-id", jsonOmitEmpty := false, jsonSkip := false },
   { name := "SecurityLifeCycle", goType := "*uint16", cborKey := (-75002), keyAsInt := true, cborOmitEmpty := false, cborSkip := false, jsonName := "psa-security-lifecycle", jsonOmitEmpty := false, jsonSkip := false },
   { name := "ImplID", goType := "*[]byte", cborKey := (-75003), keyAsInt := true, cborOmitEmpty := false, cborSkip := false, jsonName := "psa-implementation-id", jsonOmitEmpty := false, jsonSkip := false },
